@@ -125,6 +125,8 @@ def run_case(spec, ctx):
             except (TypeError, ValueError):
                 continue
             jv = C.judge(got, val)
+            if jv not in ("ok", "skip") and abs(got - float(val.v)) <= 1e-25:
+                jv = "ok"  # noise of sympy's own 30-digit evalf around an exact zero
             if jv != "skip":
                 compared += 1
                 if jv != "ok":
@@ -143,7 +145,8 @@ def run_case(spec, ctx):
                     if not E.well_conditioned(gv) and g.d != 0:
                         continue
                     compared += 1
-                    tol = float(E.tolerance(gv)) + 1e-10 * abs(float(g.d))
+                    # + an absolute floor for the noise of sympy's own 30-digit evalf (e.g. pi - pi evaluates to 1e-163)
+                    tol = float(E.tolerance(gv)) + 1e-10 * abs(float(g.d)) + 1e-25
                     if not abs(gotj - float(g.d)) <= tol:
                         out["violations"].append({"kind": "jacobian_entry", "detail": {"row": s, "col": s2, "got": gotj, "expected": float(g.d), "tol": tol, "point": pt if len(pt) < 10 else None}})
     cn["compared"] = compared
@@ -154,7 +157,6 @@ def run_case(spec, ctx):
 def finish(out, text, spec, ref):
     if out["violations"]:
         out["status"] = "violated"
-        out["violations"] = out["violations"][:6]
     for v in out["violations"]:
         F.classify(ID, v, text=text, ref=ref)
     out["model_text"] = text if out["violations"] else None
